@@ -562,6 +562,8 @@ Proof.
     destruct (match r1 with [] => _ | n :: t => _ end) as [res r2].
     destruct (find_pent _ _); cbn [fst]; [apply LInv_deliver; auto; apply en_ok_none|exact HI]. }
   destruct (c =? 82); [exact HI|].
+  destruct (c =? 84); [exact HI|].
+  destruct (c =? 83); [exact HI|].
   destruct (c =? 31).
   { destruct a as [|blob [|]]; try exact HI. destruct (Cluster.Model.zget _ _); exact HI. }
   exact HI.
